@@ -53,6 +53,8 @@ type H struct {
 	Replay   string
 	Deadline time.Time
 	Rep      Report
+	Shard    int
+	NShards  int
 
 	mu       sync.Mutex
 	vio      map[string]*Violation
@@ -73,13 +75,15 @@ var (
 	fReport  = flag.String("report", "", "report file")
 	fReplay  = flag.String("replay", "", "replay one recorded case")
 	fBudget  = flag.Duration("budget", 0, "time budget; enumeration stops (exhaustive:false) when exceeded")
+	fShard   = flag.Int("shard", -1, "shard index (engines that shard over processes)")
+	fNShards = flag.Int("nshards", 0, "number of shards")
 )
 
 func New() *H {
 	if !flag.Parsed() {
 		flag.Parse()
 	}
-	h := &H{Prop: *fProp, Tier: *fTier, Seed: *fSeed, Workers: *fWorkers, ReportTo: *fReport, Replay: *fReplay}
+	h := &H{Prop: *fProp, Tier: *fTier, Seed: *fSeed, Workers: *fWorkers, ReportTo: *fReport, Replay: *fReplay, Shard: *fShard, NShards: *fNShards}
 	if h.Workers < 1 {
 		h.Workers = 1
 	}
@@ -437,6 +441,40 @@ func (h *H) Finish() {
 		os.Exit(1)
 	}
 	os.Exit(0)
+}
+
+// MergeChild folds the report of a shard process into this one.
+func (h *H) MergeChild(r *Report) {
+	h.EvalN(r.Evaluations)
+	h.DistinctN(r.Distinct)
+	h.mu.Lock()
+	h.Rep.States += r.States
+	h.Rep.Transitions += r.Transitions
+	h.Rep.Traces += r.Traces
+	for _, c := range r.CapsHit {
+		dup := false
+		for _, x := range h.Rep.CapsHit {
+			if x == c {
+				dup = true
+			}
+		}
+		if !dup {
+			h.Rep.CapsHit = append(h.Rep.CapsHit, c)
+		}
+		h.Rep.Exhaustive = false
+	}
+	for _, s := range r.Samples {
+		if len(h.Rep.Samples) < h.sampleN {
+			h.Rep.Samples = append(h.Rep.Samples, s)
+		}
+	}
+	if r.Internal != "" && h.Rep.Internal == "" {
+		h.Rep.Internal = r.Internal
+	}
+	h.mu.Unlock()
+	for _, v := range r.Violations {
+		h.ViolateMin(v.Key, v.What, v.Case, 1<<30)
+	}
 }
 
 // LoadReplay reads the "case" object of a replay file into v.
